@@ -432,10 +432,12 @@ def r3_r4_from_angles(ck, prog, run):
                     pe, pdt = val(P1, a)
                     p2e, _ = val(P2, a)
                     fe, fdt = val(Fv if kind == "factor" else Dv, b, ctyped)
-                    ph1 = Num(pe * CYCLE, kind="quantity", unit=CYCLE, dtype=ExtV(pdt))
-                    ph2 = Num(p2e * CYCLE, kind="quantity", unit=CYCLE, dtype=ExtV(pdt))
+                    # the same angles, held in cycles or (every other combination) in degrees: from_angles must read them as cycles
+                    rep = CYCLE if (n % 2) else sp.pi / 180
+                    ph1 = Num(pe * CYCLE, kind="quantity", unit=rep, dtype=ExtV(pdt))
+                    ph2 = Num(p2e * CYCLE, kind="quantity", unit=rep, dtype=ExtV(pdt))
                     fv = Num(fe, dtype=ExtV(fdt))
-                    tag = f"from_angles({'imaginary' if a else 'real'} phase, {kind}={'imaginary' if b else ('real, complex-typed' if ctyped else 'real')})"
+                    tag = f"from_angles({'imaginary' if a else 'real'} phase in {'cycles' if rep == CYCLE else 'degrees'}, {kind}={'imaginary' if b else ('real, complex-typed' if ctyped else 'real')})"
                     try:
                         got = capture([ph1, ph2], {kind: fv})
                     except (Raised, Unsupported, DimensionError) as e:
